@@ -970,6 +970,40 @@ def _seq_method(interp, s, name, ba=None):
             pad = mk_rope(kind, [BR(code, simp(T(width) - T(lt)))])
             return rope_concat(r, pad) if name == "ljust" else rope_concat(pad, r)
         return INative(kind + "." + name, just)
+    if name == "format" and kind == "str":
+        def fmt(*a, **k):
+            if conc(*a) and not any(ops.is_sym(v) or _has_sym(v) for v in k.values()):
+                if not any(isinstance(v, (IObj, IClass, IFunc, IBound, IModule)) for v in list(a) + list(k.values())):
+                    return s.format(*a, **k)
+            if ops.is_sym(s):
+                raise OutOfReach("format on a symbolic template")
+            import string as _string
+            out, auto = "", 0
+            for lit, field, spec, conv in _string.Formatter().parse(s):
+                if lit:
+                    out = out + lit if not ops.is_sym(out) else rope_concat(out, lit)
+                if field is None:
+                    continue
+                if "{" in (spec or "") or "." in field or "[" in field:
+                    raise OutOfReach("str.format with nested or attribute fields")
+                if field == "":
+                    if auto >= len(a):
+                        raise IndexError("Replacement index out of range for positional args tuple")
+                    val = a[auto]
+                    auto += 1
+                elif field.isdigit():
+                    if int(field) >= len(a):
+                        raise IndexError("Replacement index out of range for positional args tuple")
+                    val = a[int(field)]
+                else:
+                    if field not in k:
+                        raise KeyError(field)
+                    val = k[field]
+                piece = format_value(interp, val, ord(conv) if conv else -1, spec or "")
+                out = piece if (not ops.is_sym(out) and out == "") else \
+                    (out + piece if not (ops.is_sym(out) or ops.is_sym(piece)) else rope_concat(out, piece))
+            return out
+        return INative("str.format", fmt)
     if name in ("strip", "lstrip", "rstrip", "title", "capitalize", "format", "zfill", "ljust", "rjust", "center",
                 "isalpha", "isalnum", "isupper", "islower", "isspace", "count", "index", "rfind", "partition",
                 "rpartition", "splitlines", "swapcase", "casefold", "isascii", "isidentifier", "expandtabs",
@@ -1012,6 +1046,15 @@ def make_builtins(interp):
     b["None"], b["True"], b["False"], b["Ellipsis"] = None, True, False, Ellipsis
     b["NotImplemented"] = NotImplemented
 
+    def _memoryview(v):
+        # a read-only view of immutable bytes behaves as those bytes for len / truth / slicing / concatenation / comparison /
+        # passing to send(); (type name, .nbytes, .release() and views of a bytearray are not modelled)
+        if isinstance(v, IByteArray):
+            raise OutOfReach("memoryview of a bytearray")
+        if not ops.is_bytes(v):
+            raise TypeError("memoryview: a bytes-like object is required")
+        return v
+    reg("memoryview", _memoryview)
     reg("len", lambda v: _len(interp, v))
     reg("isinstance", lambda v, t: py_isinstance(interp, v, t))
     reg("issubclass", lambda c, t: py_issubclass(interp, c, t))
